@@ -151,7 +151,16 @@ using NativeSocket = int;
 #endif
 extern "C" void h_path_split_stub4(std::filesystem::path*) {}
 extern "C" void h_fs_parent_empty4(std::filesystem::path* out, const std::filesystem::path*) { new (out) std::filesystem::path(); }   // engine only: the output path has no directory part
-extern "C" void h_fs_absolute4(std::filesystem::path* out, const std::filesystem::path* in) { new (out) std::filesystem::path(*in); }
+// std::filesystem::absolute: identity on the text, and - like the real one - an error for the empty path
+extern "C" void h_fs_absolute4(std::filesystem::path* out, const std::filesystem::path* in) {
+    if (in->native().empty()) throw std::runtime_error("filesystem error: cannot make absolute path: Invalid argument");      // the real one throws filesystem_error (a runtime_error)
+    new (out) std::filesystem::path(*in);
+}
+// the error_code overload of std::filesystem::absolute: identity on the text; the empty path is an error (as in the real one)
+extern "C" void h_fs_absolute_ec4(std::filesystem::path* out, const std::filesystem::path* in, std::error_code* ec) {
+    if (in->native().empty()) { *ec = std::error_code(22, ec->category()); new (out) std::filesystem::path(); return; }
+    *ec = std::error_code(0, ec->category()); new (out) std::filesystem::path(*in);
+}
 using namespace ephemeralnet; using namespace ephemeralnet::daemon;
 namespace {
 struct PartialNode {
@@ -267,3 +276,47 @@ extern "C" void h_c29_list(unsigned long nchunks) {
     verif_reach("listed");
 }
 #endif
+// ---------------------------------------------------------------- C35: control-plane request bytes never take the daemon down
+// (an exception that escapes handle_client ends the accept thread and with it the daemon: the engine reports it as escaping)
+// FETCH with an OUT header of `outlen` symbolic characters (0 = the empty value), with or without STREAM, decodable manifest
+extern "C" void h_c35_control_fetch(unsigned long outlen) {
+    reset_env();
+    PartialNode pn; Node* n = pn.node();
+    std::mutex m; ControlServer::Impl impl(*n, m, [] {});
+    g_decodable = nondet_bool("manifest_decodable");
+    std::string rq = "COMMAND:FETCH\nMANIFEST:eph://x\nOUT:" + sym_text(outlen, "out_char") + "\n";
+    if (nondet_bool("stream_header")) rq += "STREAM:client\n";
+    rq += "\n";
+    g_in = rq;
+    impl.handle_client(5, "127.0.0.1");
+    verif_assert(!g_out.empty(), "C35: every control request gets a response");
+    verif_reach("answered");
+}
+// a request of n arbitrary bytes (then the client closes its side)
+extern "C" void h_c35_control_bytes(unsigned long nbytes) {
+    reset_env();
+    PartialNode pn; Node* n = pn.node();
+    std::mutex m; ControlServer::Impl impl(*n, m, [] {});
+    std::string rq; for (unsigned long i = 0; i < nbytes; ++i) rq.push_back(static_cast<char>(nondet_u8("request_byte")));
+    g_in = rq;
+    impl.handle_client(5, "127.0.0.1");
+    verif_reach("survived");
+}
+// a well-formed header block COMMAND:<any of the nine commands, chosen symbolically> plus one header whose key is symbolic among the
+// keys the handlers read and whose value is 0..vlen symbolic characters
+extern "C" void h_c35_control_header(unsigned long vlen) {
+    reset_env();
+    PartialNode pn; Node* n = pn.node();
+    std::mutex m; ControlServer::Impl impl(*n, m, [] {});
+    static const char* cmds[] = {"PING", "STATUS", "STOP", "LIST", "DEFAULTS", "METRICS", "DIAGNOSTICS", "STORE", "FETCH"};
+    static const char* keys[] = {"TTL", "PAYLOAD-LENGTH", "OUT", "STREAM", "MANIFEST", "TOKEN", "STORE-POW", "FILENAME", "PATH"};
+    std::uint8_t ci = nondet_u8("command"); verif_assume(ci < 9); ci = static_cast<std::uint8_t>(verif_concretize(ci, 9));
+    std::uint8_t ki = nondet_u8("header"); verif_assume(ki < 9); ki = static_cast<std::uint8_t>(verif_concretize(ki, 9));
+    std::string rq = std::string("COMMAND:") + cmds[ci] + "\n";
+    if (ci == 8 && ki != 4) rq += "MANIFEST:eph://x\n";
+    rq += std::string(keys[ki]) + ":" + sym_text(vlen, "value_char") + "\n\n";
+    g_in = rq;
+    impl.handle_client(5, "127.0.0.1");
+    verif_assert(!g_out.empty(), "C35: every control request gets a response");
+    verif_reach("answered");
+}
